@@ -1026,6 +1026,51 @@ def answerCfg (pre post : List String) : String :=
     | _, _, _, _ => "bad-case parse-cfg"
   | _ => "bad-case shape-cfg"
 
+/-! ## shut suite (round 8b): Shutdown with an open batch; the model is `step` + `Hk.shutdown` -/
+def parseShutOp (st : String) : Option BOp :=
+  if st.startsWith "P" then (parsePair "." (dropS st 1)).map (fun p => BOp.put p.1 p.2)
+  else if st.startsWith "U" then (dropS st 1).toNat?.map BOp.del
+  else none
+
+/-- the eager worker: log, take, and commit as soon as the batch is full (all writes succeed) -/
+def shutSubmit (cfg : Cfg) (acc : Option (St × String)) (o : BOp) : Option (St × String) :=
+  match acc with
+  | none => none
+  | some (s, res) =>
+    match step cfg s (.log o) with
+    | some (s1, .accepted) =>
+      match step cfg s1 (.take true) with
+      | some (s2, _) =>
+        match s2.phase with
+        | .due _ => (step cfg s2 (.commit .ok)).map (fun r => (r.1, res ++ "o"))
+        | .idle => some (s2, res ++ "o")
+      | none => none
+    | some (s1, _) => some (s1, res ++ "r")
+    | none => none
+
+def answerShut (pre post : List String) : String :=
+  match pre with
+  | [cfgW, script] =>
+    match (dropS cfgW 1).toNat?, (splitSemi script).mapM parseShutOp, kvArg "res=" post, kvArg "fin=" post with
+    | some size, some ops, some res, some finW =>
+      match parsePairs finW with
+      | none => "bad-case fin"
+      | some fin =>
+        if !cfgW.startsWith "Z" || size == 0 then "bad-case cfg" else
+        match ops.foldl (shutSubmit { maxSize := size, qcap := 50 }) (some ({}, "")) with
+        | none => "bad-case model-stuck"
+        | some (s, mres) =>
+          let keys := ops.map BOp.key
+          let lost := s.curSize
+          let s := Hk.shutdown s
+          let view := viewOf s.rep keys
+          let arm := "shut-size" ++ toString size ++ (if lost == 0 then "-nothing-open" else "-open-batch-lost")
+          if (if res == "-" then "" else res) != mres then "diff arm=" ++ arm ++ " model=res:" ++ mres
+          else if sortPairs fin != view then "diff arm=" ++ arm ++ " model=fin:" ++ showList view
+          else "ok arm=" ++ arm ++ (if ops.isEmpty then " trivial" else "")
+    | _, _, _, _ => "bad-case parse-shut"
+  | _ => "bad-case shape-shut"
+
 def answer (ws : List String) : String :=
   match splitArrow ws with
   | none => "bad-case no-arrow"
@@ -1038,6 +1083,7 @@ def answer (ws : List String) : String :=
     | "comp" :: rest => answerComp rest post
     | "hook" :: rest => answerHook rest post
     | "cfg" :: rest => answerCfg rest post
+    | "shut" :: rest => answerShut rest post
     | _ => "bad-case unknown-suite"
 
 end CV.C02
